@@ -4,16 +4,19 @@ import (
 	"encoding/json"
 	"fmt"
 	"os"
+	"path/filepath"
 	"runtime"
 	"sort"
 	"sync"
 
 	"cedarverif/internal/core"
+	"cedarverif/internal/kit"
+	"cedarverif/internal/tlc"
 )
 
 // Job is one concrete execution: a behaviour plus the concrete expansion.
 type Job struct {
-	Kind string    // "C06" | "C07"
+	Kind string // "C06" | "C07"
 	Sc   *Scenario
 	V06  Variant06
 	V07  Variant07
@@ -193,6 +196,38 @@ func (a *Stats06) add(b *Stats06) {
 	a.FramesOpenedByRef += b.FramesOpenedByRef
 	a.LeaseRenewed += b.LeaseRenewed
 	a.LeaseNotRenewed += b.LeaseNotRenewed
+	a.RealDeclined += b.RealDeclined
+}
+
+// Generate is kit.Generate; as a development aid (mutation experiments against
+// scratch worktrees) VERIF_DEV_SCENARIOS=<dir> caches the generator output,
+// which does not depend on the code under test. Registered commands never set it.
+func Generate(c *core.Ctx, module, cfg string, o tlc.Options) []json.RawMessage {
+	dir := os.Getenv("VERIF_DEV_SCENARIOS")
+	if dir == "" {
+		return kit.Generate(c, module, cfg, o)
+	}
+	file := filepath.Join(dir, fmt.Sprintf("%s-%s-%d.json", cfg, o.Simulate, o.Seed))
+	if b, err := os.ReadFile(file); err == nil {
+		var raws []json.RawMessage
+		if json.Unmarshal(b, &raws) == nil && len(raws) > 0 {
+			c.Note("development run: behaviours loaded from " + file)
+			c.Add("behaviours_generated", int64(len(raws)))
+			return raws
+		}
+	}
+	raws := kit.Generate(c, module, cfg, o)
+	if b, err := json.Marshal(raws); err == nil && len(raws) > 0 {
+		_ = os.MkdirAll(dir, 0o755)
+		_ = os.WriteFile(file, b, 0o644)
+	}
+	return raws
+}
+
+// DevSkipMC: development aid only (see Generate): the exhaustive TLC run does not
+// depend on the code under test, mutation experiments may skip it.
+func DevSkipMC() bool {
+	return os.Getenv("VERIF_DEV_SCENARIOS") != "" && os.Getenv("VERIF_DEV_SKIP_MC") == "1"
 }
 
 // ParseAll decodes generated behaviours.
